@@ -299,6 +299,21 @@ def collision_db(r):
             als[f"{name}*{60 + k}.001"] = {"mutations": [list(ent)]}
             if plain and r.random() < 0.6:
                 als[r.choice(plain)]["mutations"].append(list(ent))
+    # a zero-length region (as CYP2D6's `pce` in the pseudogene-free builds) and two partial deletions that differ only
+    # in that region: two different structures as declared - they stay two configurations
+    regs19, regs38 = doc["structure"]["regions"]["hg19"], doc["structure"]["regions"]["hg38"]
+    exs = [n for n in regs19 if n[0] == "e"]
+    if len(exs) >= 3 and r.random() < 0.3:
+        ek = r.choice(exs[1:-1])
+        other = r.choice([n for n in exs if n != ek])
+        for bname, regs in (("hg19", regs19), ("hg38", regs38)):
+            v = regs[ek]
+            # the empty region sits at the RefSeq start of the former exon in both builds (the genome end on the - strand)
+            k0 = 0 if doc["reference"]["mappings"][bname][3] == "+" else 1
+            regs[ek] = [v[k0], v[k0]] + ([v[2 + k0], v[2 + k0]] if len(v) > 2 else [])
+        top = max([int(re.match(r"\d+", k.split("*")[1]).group()) for k in als if re.match(r"\d+", k.split("*")[1])] + [70])
+        als[f"{name}*{top + 1}.001"] = {"mutations": [[name, f"deletion:{other}"]]}
+        als[f"{name}*{top + 2}.001"] = {"mutations": [[name, f"deletion:{other},{ek}"]]}
     # a renumbered copy: *10 vs *9 duplicates across majors
     if plain and r.random() < 0.4:
         src = r.choice(plain)
